@@ -132,10 +132,10 @@ func (t *Timer) Cancel() error {
 func (t *Timer) Close() (err error) {
 	if t.state != stateClosed {
 		err = t.it.Close()
-		if err == nil {
-			t.state = stateClosed
-			delete(t.ioc.pendingTimers, t)
-		}
+		// The descriptor is released whatever close(2) reports, so the timer is closed even if err != nil: calling
+		// close(2) again on the same number could hit a descriptor that belongs to somebody else by then.
+		t.state = stateClosed
+		delete(t.ioc.pendingTimers, t)
 	}
 	return
 }
